@@ -107,7 +107,8 @@ def oracle_applies(prop, case_text):
         # one root subscriber, no observable-valued items
         return case_text.count("(sub ") == 1 and "window_with_count" not in case_text and "group_by" not in case_text
     if prop == "C14":
-        return "-hot-" not in case_text.split()[1] and "(subject" not in case_text and "flaky" not in case_text
+        return ("-hot-" not in case_text.split()[1] and "(subject" not in case_text and "flaky" not in case_text
+                and "window_with_count" not in case_text and "group_by" not in case_text)   # child subscribers differ from the root by design
     if prop == "C17":
         return "(drop)" in case_text
     if prop == "C10":
